@@ -7,7 +7,7 @@ import os
 import re
 
 from fsx import core
-from fsx.core import F
+from fsx.core import D, F
 
 ID = 'C16'
 LEVEL = 'exploration'
@@ -85,6 +85,11 @@ AGG_NESTED = [("concat('largest: ', hex(max(size)))", 'hex(max(size))', lambda v
               ("concat('x', concat('y', concat('z', sum(size))))", 'sum(size)', lambda v: 'xyz' + v), ("replace('a-b', 'b', hex(max(size)))", 'hex(max(size))', lambda v: 'a-' + v),
               ("substr('abcdefghijklmnopqrstuvwxyz', 1, abs(count(*)))", 'abs(count(*))', lambda v: 'abcdefghijklmnopqrstuvwxyz'[:int(float(v))]),
               ("concat('m:', lower(upper(hex(max(size) - min(size)))))", 'lower(upper(hex(max(size) - min(size))))', lambda v: 'm:' + v)]
+
+
+# (call, model of its value from the name, a literal no name yields)
+UNDER_OR = [('upper(name)', lambda n: n.upper(), "'ZZZ'"), ('length(name)', lambda n: str(len(n)), '99'), ("concat(name, '!')", lambda n: n + '!', "'zzz!'"),
+            ('substr(name, 1, 2)', lambda n: n[:2], "'zz'"), ('lower(name)', lambda n: n.lower(), "'zzz'"), ("replace(name, 'a', 'A')", lambda n: n.replace('a', 'A'), "'zzz'")]
 
 
 def gen(tier):
@@ -194,6 +199,10 @@ def gen(tier):
     # F(constant, G(aggregate)): a function applied to an aggregate that stands deeper inside one of its arguments gives one row, F of the aggregate's value
     for i in range(len(AGG_NESTED)):
         yield {'k': 'aggfn', 'i': i, 'fn': 'function-of-nested-aggregate'}
+    # the value of a call in the select list is that of its own row, whatever the WHERE clause computed for the rows rejected before it
+    for i in range(len(UNDER_OR)):
+        for rd in ('sorted', 'rev'):
+            yield {'k': 'under-or', 'i': i, 'rd': rd, 'fn': 'call-value-after-rejected-rows'}
     # the date functions on a modified column whose year has more than four digits or a sign (tmpfs only)
     yield {'k': 'faryears', 'expr': 'year(modified)', 'fn': 'date-part-of-far-year'}
     yield {'k': 'daterows', 'expr': 'year(name)', 'fn': 'date-rows'}
@@ -483,6 +492,35 @@ def eval_group(env, group, tier):
                             r.update(status='ok', sig=('far', len(rows_)))
                 finally:
                     subprocess.run(['rm', '-rf', shm])
+            elif k == 'under-or':
+                call, f, never = UNDER_OR[c['i']]
+                d_ = env.newdir('c16o')
+                try:
+                    # small and large files in turn (in both arrival orders an accepted row follows a rejected one), two levels
+                    core.materialise(d_, {'r1': D(dict(('%s%02d.txt' % ('abcdefgh'[j_ % 8] * (1 + j_ % 3), j_), F(1 if j_ % 2 else 9)) for j_ in range(12))),
+                                          'r2': D({'Alpha.TXT': F(1), 'bravo.txt': F(9), 'sub': D({'charlie.c': F(1), 'Delta.c': F(9), 'echo': F(1), 'foxtrot.md': F(9)})})})
+                    bad = None
+                    for wh in ('size gt 5 or %s = %s' % (call, never), '(size gt 5 or %s = %s) and size ge 0' % (call, never), 'size gt 5 or not %s != %s' % (call, never),
+                               'size gt 5 or size lt 0 or %s = %s' % (call, never)):
+                        for tail in ('', ' order by %s' % call, ' order by name desc'):
+                            for frm in ('r1, r2', 'r2 dfs, r1', '.'):
+                                q2 = 'name, %s, length(%s) from %s where %s%s into list' % (call, call, frm, wh, tail)
+                                o = env.run([q2], cwd=d_, preload=True, env={'FSX_READDIR': c['rd']})
+                                rows_ = o.rows(3) or []
+                                wrong = [list(row) for row in rows_ if row[1] != f(row[0]) or row[2] != str(len(f(row[0])))]
+                                if o.rc != 0 or o.err or len(rows_) < 9 or wrong:
+                                    bad = {'query': q2, 'rows': len(rows_), 'wrong': wrong[:3], 'err': o.brief()['err'], 'readdir': c['rd']}
+                                    break
+                            if bad:
+                                break
+                        if bad:
+                            break
+                    if bad:
+                        viol(c['fn'], bad)
+                    else:
+                        r.update(status='ok', sig=(c['i'], c['rd']))
+                finally:
+                    env.rmtree(d_)
             elif k == 'aggfn':
                 outer, inner, f = AGG_NESTED[c['i']]
                 bad = None
